@@ -384,8 +384,11 @@ class Run:
     def finish(self, level="model_checking", rule=None, extra_cov=None):
         wall = time.time() - self.t0
         cov = {
-            "states": max(self.states, 1) if (self.states or self.steps) else 0,
-            "transitions": max(self.transitions + self.steps, 1) if (self.transitions or self.steps) else 0,
+            # TLC states: distinct states of the exhaustive models + one state per validated trace step
+            "states": self.states + self.steps,
+            "transitions": self.transitions + self.steps,
+            "model_states_distinct": self.states,
+            "model_states_generated": self.transitions,
             "traces_validated_against_impl": sum(1 for t in self.traces if not t.get("crashed") and t.get("rejected") == 0),
             "samples": self.samples if self.samples else [{"note": "no sample recorded"}],
             "model_runs": self.models,
